@@ -76,9 +76,27 @@ theorem alookup_some_mem {V : Type} (l : List (Name × V)) (k : Name) (v : V) (h
 
 /-! ## integers -/
 
-theorem wrap64_id (x : Int) (h1 : -9223372036854775808 ≤ x) (h2 : x < 9223372036854775808) : wrap64 x = x := by
-  unfold wrap64
-  omega
+/-- a block count accepted by `blocksFor` is the exact quotient, and adding it to `from` stays an int64 -/
+theorem blocksFor_some {a pb f q : Int} (h : blocksFor a pb f = some q) :
+    q = a / pb ∧ 0 ≤ f ∧ f + q ≤ maxInt64 ∧ minInt64 ≤ f + q := by
+  unfold blocksFor at h
+  simp only [] at h
+  split at h
+  · cases h
+  · rename_i hn
+    cases h
+    simp only [maxInt64, minInt64, not_or, Int.not_lt] at hn ⊢
+    refine ⟨trivial, ?_, ?_, ?_⟩ <;> omega
+
+theorem blocksFor_none {a pb f : Int} (h : blocksFor a pb f = none) :
+    a / pb < minInt64 ∨ maxInt64 < a / pb ∨ f < 0 ∨ maxInt64 < f + a / pb := by
+  unfold blocksFor at h
+  simp only [] at h
+  split at h
+  · rename_i hn
+    simp only [maxInt64, minInt64] at *
+    omega
+  · cases h
 
 /-! ## names -/
 
@@ -176,7 +194,8 @@ theorem runCreate_ok {env : Env} {s s' : St} {o b : Addr} {n : Name} {u : String
     debit s.bals (o, c) p = some s'.bals ∧ s'.pool = s.pool + p ∧ s'.tree = s.tree ∧
     ∃ d, s'.recs = upsert s.recs n d ∧ d.owner = o ∧ d.onSale = false ∧ d.creation = env.height ∧
       (if isSub n = true then ∃ par, alookup (parentOf n) s.recs = some par ∧ par.owner = o ∧ d.expire = par.expire
-       else env.opts.perBlock ≠ 0 ∧ d.expire = wrap64 (env.version + wrap64 (blocksBought p env.opts.base env.opts.perBlock))) := by
+       else env.opts.perBlock ≠ 0 ∧ ∃ q, blocksFor (p - env.opts.base) env.opts.perBlock env.version = some q ∧
+              d.expire = env.version + q) := by
   unfold runCreate at h
   split at h
   · cases h
@@ -220,9 +239,13 @@ theorem runCreate_ok {env : Env} {s s' : St} {o b : Addr} {n : Name} {u : String
     split at h
     · cases h
     rename_i hpb
+    split at h
+    · cases h
+    rename_i q hq
     cases h
     refine ⟨by omega, hex', hname'.2, hname'.1, hb, rfl, rfl, _, rfl, rfl, rfl, rfl, ?_⟩
-    simp [hsub, hpb]
+    simp only [hsub, Bool.false_eq_true, if_false]
+    exact ⟨hpb, q, hq, rfl⟩
 
 theorem runCreate_offSale {env : Env} {s s' : St} {o b : Addr} {n : Name} {u : String} {uo : Bool} {p : Int} {c : Cur}
     (h : runCreate env s o b n u uo p c = .ok s') :
@@ -268,6 +291,8 @@ theorem runCreate_offSale {env : Env} {s s' : St} {o b : Addr} {n : Name} {u : S
     split at h
     · cases h
     rename_i hpb
+    split at h
+    · cases h
     cases h
     exact ⟨_, rfl, rfl, rfl⟩
 
@@ -329,15 +354,15 @@ theorem runPurchase_ok {env : Env} {s s' : St} {buyer acct : Addr} {n : Name} {o
     (h : runPurchase env s buyer acct n off c = .ok s') :
     ∃ d, alookup n s.recs = some d ∧ isSub n = false ∧ (d.onSale = true ∨ d.expire < env.version) ∧
       env.opts.perBlock ≠ 0 ∧ s'.tree = s.tree ∧
-      ((env.version ≤ d.expire ∧ d.onSale = true ∧ ∃ sale b0, d.salePrice = some sale ∧ sale ≤ off ∧
+      ((env.version ≤ d.expire ∧ d.onSale = true ∧ ∃ sale b0 q, d.salePrice = some sale ∧ sale ≤ off ∧
           debit s.bals (buyer, c) sale = some b0 ∧
           debit (credit b0 (d.owner, c) sale) (buyer, c) (off - sale) = some s'.bals ∧ s'.pool = s.pool + (off - sale) ∧
-          s'.recs = upsert (eraseSel (visSub s.tree n) s.recs) n
-            (resetAfterSale d buyer acct (wrap64 ((off - sale) / env.opts.perBlock)) env.version))
-       ∨ (¬(env.version ≤ d.expire ∧ d.onSale = true) ∧ env.opts.base ≤ off ∧
+          blocksFor (off - sale) env.opts.perBlock d.expire = some q ∧
+          s'.recs = upsert (eraseSel (visSub s.tree n) s.recs) n (resetAfterSale d buyer acct q env.version))
+       ∨ (¬(env.version ≤ d.expire ∧ d.onSale = true) ∧ env.opts.base ≤ off ∧ ∃ q,
           debit s.bals (buyer, c) off = some s'.bals ∧ s'.pool = s.pool + off ∧
-          s'.recs = upsert (eraseSel (visSub s.tree n) s.recs) n
-            (resetAfterSale d buyer acct (wrap64 (blocksBought off env.opts.base env.opts.perBlock)) env.version))) := by
+          blocksFor (off - env.opts.base) env.opts.perBlock env.version = some q ∧
+          s'.recs = upsert (eraseSel (visSub s.tree n) s.recs) n (resetAfterSale d buyer acct q env.version))) := by
   unfold runPurchase at h
   split at h
   · cases h
@@ -373,9 +398,12 @@ theorem runPurchase_ok {env : Env} {s s' : St} {buyer acct : Addr} {n : Name} {o
     rename_i hpb
     split at h
     · cases h
+    rename_i q hq
+    split at h
+    · cases h
     rename_i b2 hb2
     cases h
-    refine ⟨d, hd, by simpa using hsub, hfs', hpb, rfl, Or.inl ⟨hbr.1, hbr.2, sale, b0, hsale, by simpa using hoff, hb0, hb2, rfl, rfl⟩⟩
+    refine ⟨d, hd, by simpa using hsub, hfs', hpb, rfl, Or.inl ⟨hbr.1, hbr.2, sale, b0, q, hsale, by simpa using hoff, hb0, hb2, rfl, hq, rfl⟩⟩
   · rename_i hbr
     simp at hbr
     split at h
@@ -386,9 +414,12 @@ theorem runPurchase_ok {env : Env} {s s' : St} {buyer acct : Addr} {n : Name} {o
     rename_i hpb
     split at h
     · cases h
+    rename_i q hq
+    split at h
+    · cases h
     rename_i b2 hb2
     cases h
-    refine ⟨d, hd, by simpa using hsub, hfs', hpb, rfl, Or.inr ⟨?_, by omega, hb2, rfl, rfl⟩⟩
+    refine ⟨d, hd, by simpa using hsub, hfs', hpb, rfl, Or.inr ⟨?_, by omega, q, hb2, rfl, hq, rfl⟩⟩
     intro ⟨h1, h2⟩
     have := hbr h1
     simp [h2] at this
@@ -430,10 +461,9 @@ theorem runRenew_ok {env : Env} {s s' : St} {o : Addr} {n : Name} {p : Int} {c :
     ∃ d, alookup n s.recs = some d ∧ d.owner = o ∧ isSub n = false ∧ env.opts.perBlock < p ∧
       env.opts.perBlock ≠ 0 ∧ expiredAt d env.version = false ∧
       debit s.bals (o, c) p = some s'.bals ∧ s'.pool = s.pool + p ∧ s'.tree = s.tree ∧
-      s'.recs = mapSel (visSub s.tree n)
-          (fun x => { x with expire := wrap64 (d.expire + wrap64 (p / env.opts.perBlock)) })
-          (upsert s.recs n { d with expire := wrap64 (d.expire + wrap64 (p / env.opts.perBlock)),
-                                    lastUpdate := env.height }) := by
+      ∃ q, blocksFor p env.opts.perBlock d.expire = some q ∧
+      s'.recs = mapSel (visSub s.tree n) (fun x => { x with expire := d.expire + q })
+          (upsert s.recs n { d with expire := d.expire + q, lastUpdate := env.height }) := by
   unfold runRenew at h
   split at h
   · cases h
@@ -460,8 +490,11 @@ theorem runRenew_ok {env : Env} {s s' : St} {o : Addr} {n : Name} {p : Int} {c :
   split at h
   · cases h
   rename_i hpb
+  split at h
+  · cases h
+  rename_i q hq
   cases h
-  exact ⟨d, hd, by simpa using hown, by simpa using hsub, by omega, hpb, by simpa using hexp, hb1, rfl, rfl, rfl⟩
+  exact ⟨d, hd, by simpa using hown, by simpa using hsub, by omega, hpb, by simpa using hexp, hb1, rfl, rfl, q, hq, rfl⟩
 
 theorem runDeleteSub_ok {env : Env} {s s' : St} {o : Addr} {n : Name}
     (h : runDeleteSub env s o n = .ok s') :
@@ -722,7 +755,7 @@ theorem inv_create {env : Env} {s s' : St} {o b : Addr} {n : Name} {u : String} 
 
 theorem inv_renew {env : Env} {s s' : St} {o : Addr} {n : Name} {p : Int} {c : Cur}
     (h : runRenew env s o n p c = .ok s') (hi : RegInv s) (hc : subsCommitted s n = true) : RegInv s' := by
-  obtain ⟨d, hd, _, hsub, _, _, _, _, _, _, hrecs⟩ := runRenew_ok h
+  obtain ⟨d, hd, _, hsub, _, _, _, _, _, _, q, _, hrecs⟩ := runRenew_ok h
   have hvn := (hi n d hd).1
   have hn2 : n.length = 2 := length_two_of_valid_not_sub hvn hsub
   intro k dk hk
@@ -745,7 +778,7 @@ theorem inv_renew {env : Env} {s s' : St} {o : Addr} {n : Name} {p : Int} {c : C
         have hvis := vis_of_committed hc hk0 hsk
         rw [hpar, hd] at hq
         cases hq
-        refine ⟨{ d with expire := wrap64 (d.expire + wrap64 (p / env.opts.perBlock)), lastUpdate := env.height }, ?_, ?_, ?_⟩
+        refine ⟨{ d with expire := d.expire + q, lastUpdate := env.height }, ?_, ?_, ?_⟩
         · rw [hrecs, alookup_mapSel, alookup_upsert, hpar]
           simp [visSub, isSubOf_irrefl]
         · rw [← hk]; simp [hvis]; exact hqo
@@ -773,7 +806,7 @@ theorem inv_purchase {env : Env} {s s' : St} {buyer acct : Addr} {n : Name} {off
   have hvn := (hi n d hd).1
   have hn2 : n.length = 2 := length_two_of_valid_not_sub hvn hsub
   have hrecs : ∃ d', s'.recs = upsert (eraseSel (visSub s.tree n) s.recs) n d' := by
-    rcases hbr with ⟨_, _, _, _, _, _, _, _, _, hr⟩ | ⟨_, _, _, _, hr⟩
+    rcases hbr with ⟨_, _, _, _, _, _, _, _, _, _, _, hr⟩ | ⟨_, _, _, _, _, _, hr⟩
     · exact ⟨_, hr⟩
     · exact ⟨_, hr⟩
   obtain ⟨d', hrecs⟩ := hrecs
@@ -985,7 +1018,7 @@ theorem auth_of_change {env : Env} {s : St} {tx : Tx} {n : Name}
   | purchase b a n' o c =>
     obtain ⟨d, hd, hsub, hfs, _, _, hbr⟩ := runPurchase_ok h1
     have hrecs : ∃ d', s1.recs = upsert (eraseSel (visSub s.tree n') s.recs) n' d' := by
-      rcases hbr with ⟨_, _, _, _, _, _, _, _, _, hr⟩ | ⟨_, _, _, _, hr⟩
+      rcases hbr with ⟨_, _, _, _, _, _, _, _, _, _, _, hr⟩ | ⟨_, _, _, _, _, _, hr⟩
       · exact ⟨_, hr⟩
       · exact ⟨_, hr⟩
     obtain ⟨d', hrecs⟩ := hrecs
@@ -1001,7 +1034,7 @@ theorem auth_of_change {env : Env} {s : St} {tx : Tx} {n : Name}
     obtain ⟨_, _, _, _, _, _, _, _, _, hrecs, _⟩ := runSend_ok h1
     rw [hrecs] at hch; exact absurd rfl hch
   | renew o n' p c =>
-    obtain ⟨d, hd, hown, _, _, _, _, _, _, _, hrecs⟩ := runRenew_ok h1
+    obtain ⟨d, hd, hown, _, _, _, _, _, _, _, q, _, hrecs⟩ := runRenew_ok h1
     rw [hrecs, alookup_mapSel, alookup_upsert] at hch
     by_cases hk : n = n'
     · subst hk; exact .ownRecord d hd hown
@@ -1096,7 +1129,7 @@ theorem nodup_handler {env : Env} {s s' : St} {tx : Tx} (h : handler env s tx = 
   | purchase b a n o c =>
     obtain ⟨d, _, _, _, _, _, hbr⟩ := runPurchase_ok h
     have hrecs : ∃ d', s'.recs = upsert (eraseSel (visSub s.tree n) s.recs) n d' := by
-      rcases hbr with ⟨_, _, _, _, _, _, _, _, _, hr⟩ | ⟨_, _, _, _, hr⟩
+      rcases hbr with ⟨_, _, _, _, _, _, _, _, _, _, _, hr⟩ | ⟨_, _, _, _, _, _, hr⟩
       · exact ⟨_, hr⟩
       · exact ⟨_, hr⟩
     obtain ⟨d', hrecs⟩ := hrecs
@@ -1108,7 +1141,7 @@ theorem nodup_handler {env : Env} {s s' : St} {tx : Tx} (h : handler env s tx = 
     obtain ⟨_, _, _, _, _, _, _, _, _, hrecs, _⟩ := runSend_ok h
     rw [hrecs]; exact hn
   | renew o n p c =>
-    obtain ⟨d, _, _, _, _, _, _, _, _, _, hrecs⟩ := runRenew_ok h
+    obtain ⟨d, _, _, _, _, _, _, _, _, _, q, _, hrecs⟩ := runRenew_ok h
     rw [hrecs, akeys_mapSel]; exact nodup_akeys_upsert _ _ _ hn
   | deleteSub o n =>
     obtain ⟨par, _, _, _, _, _, hrecs⟩ := runDeleteSub_ok h
@@ -1174,7 +1207,7 @@ theorem sale_fields_of_change {env : Env} {s : St} {tx : Tx} {n : Name} {d d' : 
   | purchase b a n' o c =>
     obtain ⟨x, hx, _, _, _, _, hbr⟩ := runPurchase_ok h1
     have hrecs : ∃ e, s1.recs = upsert (eraseSel (visSub s.tree n') s.recs) n' (resetAfterSale x b a e env.version) := by
-      rcases hbr with ⟨_, _, _, _, _, _, _, _, _, hr⟩ | ⟨_, _, _, _, hr⟩
+      rcases hbr with ⟨_, _, _, _, _, _, _, _, _, _, _, hr⟩ | ⟨_, _, _, _, _, _, hr⟩
       · exact ⟨_, hr⟩
       · exact ⟨_, hr⟩
     obtain ⟨e, hrecs⟩ := hrecs
@@ -1191,7 +1224,7 @@ theorem sale_fields_of_change {env : Env} {s : St} {tx : Tx} {n : Name} {d d' : 
     obtain ⟨_, _, _, _, _, _, _, _, _, hrecs, _⟩ := runSend_ok h1
     rw [hrecs, hd] at hd'; cases hd'; exact (same rfl).elim
   | renew o n' p c =>
-    obtain ⟨x, hx, _, _, _, _, _, _, _, _, hrecs⟩ := runRenew_ok h1
+    obtain ⟨x, hx, _, _, _, _, _, _, _, _, q, _, hrecs⟩ := runRenew_ok h1
     rw [hrecs, alookup_mapSel, alookup_upsert] at hd'
     by_cases hk : n = n'
     · subst hk; rw [hd] at hx; cases hx
